@@ -133,7 +133,10 @@ class Patch(Relation):
         cls = rs['cls']
         reg = S.build(rs)
         ox, oy = sp['origin']
+        from vf.fingerprint import fp
+        fp_reg = fp(reg)
         patch = reg.as_artist(origin=(ox, oy))
+        ctx.check(fp(reg) == fp_reg, f'{cls} | as_artist modifies the region')
         ctx.label(cls, G.angle_family(rs), 'origin:' + (
             'zero' if (ox, oy) == (0.0, 0.0) else 'shifted'))
         ctx.check(isinstance(patch, mpatches.Patch),
